@@ -754,6 +754,15 @@ def routes_converge(ck, rule):
                 v = kw(c, k_)
                 # the substituted keyword is the method's own parameter, or the entry popped from **kwargs with the configured default
                 okf = v is not None and dotted(v) == k_ and k_ in m.params
+                if not okf and v is None and any(kk.arg is None for kk in c.keywords):
+                    # the keyword record itself is forwarded; its entry was given the configured default with kwargs.setdefault(k, default)
+                    spread = [dotted(kk.value) for kk in c.keywords if kk.arg is None]
+                    for ce in pf.calls:
+                        rc = ce.raw
+                        if isinstance(rc.func, ast.Attribute) and rc.func.attr == "setdefault" and dotted(rc.func.value) in spread and len(rc.args) == 2 and const_str(rc.args[0]) == k_:
+                            okf = True
+                            if not (meth == "dot" and k_ == "sizing"):
+                                ck.check(dotted(rc.args[1]) == want_default[k_], rule, m, "%s takes the default of %s from its configuration" % (meth, k_), src(rc)[:80], rt, nontrivial=False)
                 if not okf and isinstance(v, ast.Call) and dotted(v.func) in ("kwargs.pop", "kwargs.get") and v.args and const_str(v.args[0]) == k_:
                     okf = True
                     if len(v.args) == 2 and not (meth == "dot" and k_ == "sizing"):
